@@ -581,6 +581,15 @@ def main(argv=None):
            (["vdw", "30", "3", "4", "5"], "vdw", {"N": 30, "K": [3, 4, 5]}, []),
            (["bphp", "9", "6", "-T", "exact", "3", "2"], "bphp", {"m": 9, "n": 6}, [{"kind": "exact", "k": 3, "C": 2}]),
            (["cliquecoloring", "6", "3", "3"], "cliquecol", {"n": 6, "k": 3, "c": 3}, [])]
+    # formulas read from DIMACS files that declare more variables than their clauses use
+    dwd = tlc.workdir("C10dimacs")
+    for t, (n, cls_) in enumerate(((8, [[1, -5], [2, 3, -4]]), (3, []), (6, [[], [6]]), (5, [[1, 2]]))):
+        path = os.path.join(dwd, "d%d.cnf" % t)
+        with open(path, "w") as f:
+            f.write("p cnf %d %d\n" % (n, len(cls_)) + "".join(" ".join(map(str, c + [0])) + "\n" for c in cls_))
+        cli.append((["dimacs", path], "none", {"n0": n}, []))
+        cli.append((["dimacs", path, "-T", "xor", "2"], "none", {"n0": n}, [{"kind": "xor", "k": 2, "C": 0}]))
+        cli.append((["dimacs", path, "-T", "shuffle"], "none", {"n0": n}, [{"kind": "shuffle", "k": 1, "C": 0}]))
     for j, (args, fam, par, chain) in enumerate(cli):
         for tool in ("cnfgen", "pbgen"):
             if tool == "pbgen" and chain:
